@@ -151,6 +151,13 @@ def run(prop: str, tier_: str) -> int:
                     ('bbb', 'bbb_a1_enc', 'm4a', 1), ('bbb', 'bbb_v6_enc', 'm4v', 1), ('tears', 'tears_v1', 'm4v', 0), ('tears', 'tears_a1', 'm4a', 0)]
             vecs = drm_vectors(tier_, rng)
             tid = 0
+            # the single-file layout: one sidx with several references between moov and the first fragment (part of the init segment)
+            from harness.core import REPO as _REPO2
+            from harness.synth import global_sidx
+            gsx = d / 'gsx_v7.mp4'
+            gsx.write_bytes(global_sidx((_REPO2 / 'tests' / 'fixtures' / 'bbb' / 'bbb_v7.mp4').read_bytes(), 4))
+            da.add_fixture('bbb', directory='gsx', title='one sidx for the whole file', only={'bbb_a2'}, extra=[(gsx, 'gsx_v7')])
+            reps = reps + [('gsx', 'gsx_v7', 'm4v', 0)]
             if prop == 'C03':
                 # a text track stored without tfdt boxes, with an explicit tfhd base_data_offset and a trun without
                 # data_offset (tests/fixtures/webvtt.mp4): the handler has to insert the tfdt itself
@@ -164,6 +171,7 @@ def run(prop: str, tier_: str) -> int:
                 bigf.write_bytes(enlarge_segment((REPO / 'tests' / 'fixtures' / 'bbb' / 'bbb_v7.mp4').read_bytes(), 2, 600000))
                 da.add_fixture('bbb', directory='big', title='large segment', only={'bbb_a1'}, extra=[(bigf, 'big_v7')])
                 reps = reps + [('big', 'big_v7', 'm4v', 0)]
+
             if prop == 'C03':
                 extras = ['', '&events=ping&ping__interval=100&ping__timescale=100', '&events=ping,scte35&ping__interval=150&ping__count=0',
                           '&events=scte35&scte35__interval=300', '&bugs=saio', '&bugs=saio&events=ping&ping__interval=90',
